@@ -224,7 +224,7 @@ contract(TS + "reset_initial_conditions.py", "reset_initial_conditions",
          ensures=[("C07.reset_counters", "NewCond.dap == 0 and not NewCond.harvest_flag and not NewCond.crop_mature and not NewCond.crop_dead and NewCond.irr_cum == 0 and NewCond.irr_net_cum == 0 and NewCond.gdd_cum == 0")],
          assigns=_reset_assigns(),
          trusted=True,
-         note="ASSUMED contract (vectorised numpy code out of E1's reach): counters and flags reset; the complete reset (C08) is served by the bounded check",
+         note="summary used at update_time's call site: its frame is derived from the source on every run and its only clause is re-proved verbatim on the real body (reset_initial_conditions#body: C07.refines_summary.reset_counters)",
          props=("C07", "C08"))
 
 # ----------------------------------------------------------------------------- update_time
@@ -381,6 +381,9 @@ contract(TS + "reset_initial_conditions.py", "reset_initial_conditions#body",
              ("C08.reset_ponding", "implies(not ClockStruct.sim_off_season, NewCond.surface_storage == ite(ParamStruct.FieldMngt.bunds and ParamStruct.FieldMngt.z_bund > 0.001, "
                                    "min(ParamStruct.FieldMngt.bund_water, ParamStruct.FieldMngt.z_bund), 0))"),
              ("C17.co2_factor_is_one_at_reference", "implies(ParamStruct.CO2.current_concentration == ParamStruct.CO2.ref_concentration, %s.fCO2 == 1)" % _SCROP),
+             ("C20.reset_ponding_ignores_bund_settings_without_bunds", "implies(not ClockStruct.sim_off_season and not (ParamStruct.FieldMngt.bunds and ParamStruct.FieldMngt.z_bund > 0.001), NewCond.surface_storage == 0)"),
+             # REFINEMENT: the clause the summary contract (assumed at update_time's call site) states, re-proved verbatim on the real body
+             ("C07.refines_summary.reset_counters", "NewCond.dap == 0 and not NewCond.harvest_flag and not NewCond.crop_mature and not NewCond.crop_dead and NewCond.irr_cum == 0 and NewCond.irr_net_cum == 0 and NewCond.gdd_cum == 0"),
          ],
          assigns=["InitCond.**", "ParamStruct.CO2.current_concentration", "ParamStruct.Seasonal_Crop_List.**"],
          options=dict(function="reset_initial_conditions", merge_limit=None,
@@ -388,4 +391,4 @@ contract(TS + "reset_initial_conditions.py", "reset_initial_conditions#body",
                                           havoc=["crop.MaturityCD", "crop.MaxCanopyCD", "crop.CanopyDevEndCD", "crop.HIstartCD", "crop.HIendCD", "crop.YldFormCD",
                                                  "crop.FloweringCD", "crop.HIGC", "crop.tLinSwitch", "crop.dHILinear", "crop.FloweringEnd"])]),
          note="the thermal-calendar block (`if crop.CalendarType == 2:` ... vectorised numpy) is a TRUSTED block: only its frame (the season crop's calendar fields) is modelled",
-         props=("C08", "C01", "C17", "C16"))
+         props=("C08", "C01", "C17", "C16", "C20", "C07"))
